@@ -87,6 +87,9 @@ view_cells! {
     r2_views_slice_u64_u64_n1 u64, u64, 1, kani::any(), kani::any();
     t_views_slice_u8_u16_n3 u8, u16, 3, kani::any(), kani::any();
     t_views_slice_s3a2_s12a4_n2 S3a2, S12a4, 2, S3a2(bytes()), S12a4(bytes());
+    t_views_slice_u16_s17a16_n3 u16, S17a16, 3, kani::any(), S17a16(bytes());
+    t_views_slice_s1a64_u32_n1 S1a64, u32, 1, S1a64(bytes()), kani::any();
+    t_views_slice_unit_u8_n0 (), u8, 0, (), kani::any();
 }
 // from an iterator, Drop-tracked header and elements
 h!(q_views_iter_dt_n2, {
